@@ -574,6 +574,58 @@ var Corpus = []Scenario{
 		x.Ann("c-valid", "B")
 		x.D.Converge(60)
 	}},
+	{"failed-canary-template-reapplied", []string{"C07", "C05", "C13"}, func(x Scn) {
+		// a canary fails and is rolled back; the same template is applied again while the failed replica set still exists and is
+		// older than the canary duration: it is rolled back again, not promoted
+		cmd := func(v string) { x.do(Action{Op: "Cmd", Key: Key, V: v}) }
+		sc := CanaryStrategy("1")
+		sc.CDuration, sc.CNoRestarts = 3, 1
+		x.Setup(3, "A", sc)
+		x.Template("B")
+		x.AwaitCanaryPods(3)
+		cmd("canary-fail") // failed shortly before its duration ends
+		x.Rounds(1)        // rollback: spec.template back to A, status.canary cleared; the failed replica set is kept for two more units
+		x.Tick(1)
+		x.Template("B") // by now the failed replica set is older than the canary duration
+		x.EDS()
+		x.EDS()
+		x.Rounds(3)
+		x.D.Converge(40)
+	}},
+	{"canary-autopause-with-paused-false-annotation", []string{"C08", "C05", "C14"}, func(x Scn) {
+		// the annotation canary-paused=false is present (a pause that was withdrawn by overwriting it) and the canary pauses itself:
+		// the replica set's own condition counts, the duration does not promote it
+		sc := CanaryStrategy("1")
+		sc.CDuration, sc.CNoRestarts = 6, 1
+		x.Setup(3, "A", sc)
+		x.Template("B")
+		x.AwaitCanaryPods(4)
+		x.Ann("c-paused", "false")
+		x.RestartCanaryPods(3)
+		x.Rounds(9)
+		x.Ann("c-valid", "B")
+		x.D.Converge(40)
+	}},
+	{"canary-validated-right-after-sync", []string{"C09", "C05"}, func(x Scn) {
+		// the canary replica set has just created its pod when the canary is validated and the promoted replica set is requested
+		// again within the same instant: the reconcile-frequency gate holds across the change of role
+		sc := CanaryStrategy("1")
+		sc.CMode, sc.CDuration, sc.CNoRestarts = "manual", 0, -1
+		sc.MaxUnavailable = "2"
+		x.Setup(4, "A", sc)
+		x.Template("B")
+		x.EDS()
+		x.EDS()
+		x.ERS("B")
+		x.Tick(1)
+		x.do(Action{Op: "KRound"})
+		x.ERS("B") // creates the canary pod
+		x.Ann("c-valid", "B")
+		x.EDS()    // promotion
+		x.ERS("B") // same instant, now in the active role
+		x.ERS("B")
+		x.D.Converge(40)
+	}},
 	{"canary-covers-all-nodes", []string{"C13", "C04", "C07", "C02"}, func(x Scn) {
 		// as many canary replicas as nodes: the active replica set targets no node and reports 0/0/0/0 during the canary
 		sc := CanaryStrategy("2")
